@@ -731,6 +731,8 @@ type rtpfbTarget struct {
 	written int
 	lastHdr *rtp.Header
 	kept    []keptReport
+	sib        interceptor.Interceptor
+	sibWriters map[*stream]interceptor.RTPWriter
 }
 
 func newRTPFBTarget(w *world) (*rtpfbTarget, error) {
@@ -743,6 +745,15 @@ func newRTPFBTarget(w *world) (*rtpfbTarget, error) {
 		return nil, err
 	}
 	t := &rtpfbTarget{w: w, icpt: ic, writers: map[*stream]interceptor.RTPWriter{}}
+	if w.r.Chance(0.3) {
+		// another interceptor built by the SAME factory (a second peer connection) sends packets
+		// under the same SSRCs and numbers: its history is its own
+		if sib, err := f.NewInterceptor("c09-sibling"); err == nil {
+			t.sib = sib
+			t.sibWriters = map[*stream]interceptor.RTPWriter{}
+			w.c.Add("cases_with_a_sibling_interceptor_of_the_same_factory", 1)
+		}
+	}
 	t.reader = ic.BindRTCPReader(interceptor.RTCPReaderFunc(func(b []byte, a interceptor.Attributes) (int, interceptor.Attributes, error) {
 		return copy(b, t.cur), a, nil
 	}))
@@ -779,6 +790,19 @@ func (t *rtpfbTarget) send(s *sendRec, h *rtp.Header, payload []byte) (ok bool) 
 			w.dead = true
 		}
 	}()
+	if t.sib != nil && w.r.Chance(0.5) {
+		sw := t.sibWriters[s.str]
+		if sw == nil {
+			info := &interceptor.StreamInfo{SSRC: s.str.ssrc, PayloadType: s.str.pt, ClockRate: 90000}
+			if s.str.twccBound {
+				info.RTPHeaderExtensions = append(info.RTPHeaderExtensions, interceptor.RTPHeaderExtension{URI: twccURI, ID: int(s.str.extID)})
+			}
+			sw = t.sib.BindLocalStream(info, interceptor.RTPWriterFunc(func(h *rtp.Header, p []byte, _ interceptor.Attributes) (int, error) { return 0, nil }))
+			t.sibWriters[s.str] = sw
+		}
+		hs := h.Clone()
+		_, _ = sw.Write(&hs, append([]byte{0xEE}, payload...), nil) // same numbers, another size
+	}
 	before := t.written
 	n, err := wr.Write(h, payload, attrs)
 	if err != nil || n != s.hdr+len(payload) || t.written != before+1 || t.lastHdr != h {
@@ -1238,10 +1262,19 @@ func (w *world) setupStreams() {
 		s := &stream{twccBound: tw, pt: uint8(r.Range(96, 127)), extID: uint8(r.Range(1, 14))}
 		for used[s.ssrc] {
 			s.ssrc = r.U32()
-			if r.Chance(0.2) { // neighbouring SSRCs
+			switch q := r.Intn(10); {
+			case q < 2: // neighbouring SSRCs
 				for u := range used {
 					if u != 0 {
 						s.ssrc = u + 1
+						break
+					}
+				}
+			case q < 4: // SSRCs that agree in their low 16 bits / whose low 16 bits are zero
+				s.ssrc = s.ssrc&0xffff0000 | 0
+				for u := range used {
+					if u != 0 && r.Bool() {
+						s.ssrc = u&0xffff | s.ssrc&0xffff0000
 						break
 					}
 				}
